@@ -585,6 +585,104 @@ def gen_shared_expiry(rng, world=None, audit=None):
     return mk_history(world, blocks, audit=audit)
 
 
+def gen_shared_group_expiry(rng, world=None, audit=None):
+    """2..3 one-to-many groups (plus 0..2 single requests) whose timeout lists are ONE list: all expire at height K.
+    Some groups finish before K (all children succeed / a failure receipt / a child whose destination is frozen fails
+    at begin) — the first registered one most often —, the others stay open, get part of their receipts or receipts
+    after K; then the chain runs to K and beyond.  Exercises TransactionManager.addToTimeoutList /
+    removeFromTimeoutList on lists holding several ids."""
+    world = world or W_GROUP
+    ngroups = rng.choice([2, 2, 2, 3])
+    span = rng.randrange(1, 3)
+    K = START_H + span - 1 + rng.randrange(2, 6)
+    last = K + rng.randrange(1, 4)
+    tl = {h: [] for h in range(START_H, last + 1)}
+    dests_all = [2, 3, 4, 7]
+    groups = []
+    for gi in range(1, ngroups + 1):
+        src = rng.choice([1, 1, 1, 6])
+        nk = rng.randrange(1, 4)
+        H = rng.randrange(START_H, START_H + span)
+        groups.append(dict(tag=gi, src=src, H=H, declared=nk, dests=rng.sample(dests_all, nk)))
+    nxt = {}
+    # begins, block by block (registration order = order of the first child's begin)
+    order = sorted(groups, key=lambda g: (g["H"], rng.random()))
+    for g in order:
+        g["kids"] = []
+        for d in g["dests"]:
+            idx = nxt.get((g["src"], d), 0) + 1
+            nxt[(g["src"], d)] = idx
+            g["kids"].append((d, idx))
+            tl[g["H"]].append([1, g["src"], d, idx, K - g["H"], g["tag"], g["declared"], 1])
+    singles = []
+    for _ in range(rng.choice([0, 0, 1, 2])):
+        s, d = 1, rng.choice(dests_all)
+        H = rng.randrange(START_H, START_H + span)
+        singles.append((H, s, d))
+    for H, s, d in sorted(singles):
+        idx = nxt.get((s, d), 0) + 1
+        nxt[(s, d)] = idx
+        pos = rng.randrange(0, len(tl[H]) + 1)
+        # keep the per-pair index order inside the block: insert, then renumber this pair's requests in block order
+        tl[H].insert(pos, [1, s, d, idx, K - H, 0, 0, 1])
+        seq = sorted(o[3] for o in tl[H] if o[0] == 1 and o[1] == s and o[2] == d)
+        j = 0
+        for o in tl[H]:
+            if o[0] == 1 and o[1] == s and o[2] == d:
+                o[3] = seq[j]
+                j += 1
+    # fates
+    for n, g in enumerate(order):
+        p_finish = 0.75 if n == 0 else 0.35
+        fate = rng.choice(["success", "fail", "beginfail"]) if rng.random() < p_finish else rng.choice(["open", "open", "partial", "late"])
+        lo, hi = g["H"], K - 1
+        if fate == "success":
+            for d, idx in g["kids"]:
+                tl[rng.randrange(lo, hi + 1)].append([2, g["src"], d, idx, 1, 1])
+        elif fate == "fail":
+            d, idx = rng.choice(g["kids"])
+            hf = rng.randrange(lo, hi + 1)
+            tl[hf].append([2, g["src"], d, idx, 2, 1])
+            for d2, idx2 in g["kids"]:
+                if (d2, idx2) != (d, idx) and rng.random() < 0.5:
+                    tl[rng.randrange(lo, last + 1)].append([2, g["src"], d2, idx2, rng.choice([1, 2, 2]), 1])
+        elif fate == "beginfail":
+            # one more child, to the frozen service: the whole group fails at begin
+            idx = nxt.get((g["src"], 5), 0) + 1
+            nxt[(g["src"], 5)] = idx
+            hb = rng.randrange(lo, hi + 1)
+            g["declared"] += 1
+            for o in tl[g["H"]]:
+                if o[0] == 1 and o[5] == g["tag"] and o[1] == g["src"]:
+                    o[6] = g["declared"]
+            tl[hb].append([1, g["src"], 5, idx, max(1, K - hb), g["tag"], g["declared"], 1])
+        elif fate == "partial":
+            for d, idx in g["kids"][:-1]:
+                tl[rng.randrange(lo, hi + 1)].append([2, g["src"], d, idx, 1, 1])
+        elif fate == "late":
+            for d, idx in g["kids"]:
+                tl[rng.randrange(K, last + 1)].append([2, g["src"], d, idx, rng.choice([1, 1, 3]), 1])
+        if fate in ("open", "partial") and rng.random() < 0.5:
+            d, idx = g["kids"][-1]
+            tl[rng.randrange(K, last + 1)].append([2, g["src"], d, idx, rng.choice([1, 3]), 1])
+    for H, s, d in singles:
+        if rng.random() < 0.5:
+            idx = max(o[3] for h in tl for o in tl[h] if o[0] == 1 and o[1] == s and o[2] == d and o[5] == 0)
+            tl[rng.randrange(H, last + 1)].append([2, s, d, idx, rng.choice([1, 2, 3]), 1])
+    blocks = []
+    for h in sorted(tl):
+        b = tl[h]
+        # receipts of a block after its requests only sometimes: a receipt must follow its own request
+        reqs = [o for o in b if o[0] == 1]
+        rcps = [o for o in b if o[0] != 1]
+        blocks.append(reqs + rcps)
+        if rng.random() < 0.07:
+            blocks.append(0)
+    if audit is None:
+        audit = 1 if rng.random() < 0.1 else 0
+    return mk_history(world, blocks, audit=audit)
+
+
 def gen_hub(rng, world=None, audit=None):
     """this hub as SOURCE hub: requests to services of remote BitXHubs (one available, one not) and the
     destination hub's begin-failure / rollback notices, mixed with local traffic"""
@@ -868,6 +966,14 @@ def replay_check(ctx, pid, path):
     if obj.get("driver") == "router":
         from checks import router_common
         return router_common.replay_router(ctx, obj)
+    if "history" not in obj:
+        # a recorded model/implementation mismatch: the history is inside the (possibly cut) message
+        msg = str(obj.get("message", ""))
+        j = msg.find('"history": ')
+        try:
+            obj = dict(history=json.JSONDecoder().raw_decode(msg[j + 11:])[0]) if j >= 0 else obj
+        except ValueError:
+            pass
     if "history" not in obj:
         print(json.dumps(obj)[:2000])
         return 1
